@@ -394,7 +394,22 @@ func (ev *evaluator) eval(e Expr) *Val {
 			pats = append(pats, ev.eval(te).Tm)
 		}
 		if len(st.assumes) > na {
-			st.assumes = st.assumes[:na]
+			// keep the side facts that do not mention a bound variable (e.g. "this sentinel error is not nil", recorded
+			// once per path when the sentinel is first read)
+			var keep []string
+			for _, a := range st.assumes[na:] {
+				mentions := false
+				for _, qv := range nb {
+					if strings.Contains(a, qv.Tm) {
+						mentions = true
+						break
+					}
+				}
+				if !mentions {
+					keep = append(keep, a)
+				}
+			}
+			st.assumes = append(st.assumes[:na], keep...)
 		}
 		ev.bound = saved
 		g := and(guards...)
